@@ -40,4 +40,22 @@ fn main() {
 	if std::fs::rename(&tmp, dir.join("dump.json")).is_err() {
 		std::process::exit(5);
 	}
+	// respawn-path leg: one line per spawn, and the process lingers so that it can be
+	// restarted ("linger": dies on SIGTERM; "linger-ignore": ignores SIGTERM)
+	let mode = argv.get(1).and_then(|a| a.to_str().map(str::to_string)).unwrap_or_default();
+	if mode == "linger" || mode == "linger-ignore" {
+		use std::io::Write;
+		if mode == "linger-ignore" {
+			extern "C" {
+				fn signal(sig: i32, handler: usize) -> usize;
+			}
+			unsafe {
+				signal(15, 1); // SIG_IGN
+			}
+		}
+		if let Ok(mut f) = std::fs::OpenOptions::new().create(true).append(true).open(dir.join("dumps.jsonl")) {
+			let _ = writeln!(f, "{report}");
+		}
+		std::thread::sleep(std::time::Duration::from_secs(30));
+	}
 }
